@@ -90,7 +90,8 @@ CheckerAgrees(ln, base, new) ==
   LET a == ln.a   op == Cur(P, base, a)   t == McType(op.op, base.sub[a]) IN
   /\ ln.ca = a /\ ln.ctype = t
   /\ (t \in {"MUTEX_ASYNC_LOCK", "MUTEX_WAIT", "MUTEX_TRYLOCK", "MUTEX_UNLOCK"} => ln.cobj = op.o /\ ln.cown = new.own[op.o])
-  /\ (t \in {"SEM_ASYNC_LOCK", "SEM_WAIT", "SEM_UNLOCK"} => ln.cobj = op.o /\ ln.ccap = new.val[op.o])
+  /\ (t \in {"SEM_ASYNC_LOCK", "SEM_UNLOCK"} => ln.cobj = op.o /\ ln.ccap = new.val[op.o] - Len(new.sq[op.o]))   \* SemaphoreObserver
+  /\ (t = "SEM_WAIT" => ln.cobj = op.o /\ ln.ccap = new.val[op.o])
   /\ (t \in {"BARRIER_ASYNC_LOCK", "BARRIER_WAIT", "iSend", "iRecv"} => ln.cobj = op.o)
   /\ (t = "WaitComm" => LET c == IF op.op = "wait" THEN base.hnd[a][op.o].c ELSE base.cur[a] IN
                           ln.cobj = new.act[c].mb /\ ln.cfrom = new.act[c].src /\ ln.cto = new.act[c].dst)
